@@ -24,6 +24,7 @@ class UnbinnedCostFunction_NegLogLikelihood(CostFunction):
         """
         super(UnbinnedCostFunction_NegLogLikelihood, self).__init__(cost_function=self.nll, add_determinant_cost=False)
         self._needs_errors = False
+        self._kafe2go_identifier = "nll"
         self._formatter.latex_name = "-2\\ln\\mathcal{L}"
         self._formatter.name = "nll"
         self._formatter.description = "negative log-likelihood"
